@@ -9,13 +9,13 @@
     rowLength = rowlen + epochLenBytes + nanosecLenBytes - intervalTicksLenBytes bytes (constants
     GENERATED from executor/scanner.go), rowlen = the bucket's variable record length.
 
-    trimResultsToRange as written:
+    trimResultsToRange (after the fix of finding F11, class no-candidate-le-end):
       loop 1  scans forward for the first row with t >= Start and keeps the suffix from there
               (dest stays nil when there is none);
-      then    [if nrecords <= 1 return dest]  — a single remaining row is returned UNCHECKED;
-      loop 2  scans backward for the last row with t <= End and cuts after it; when NO row is <= End
-              the loop ends without changing dest — all rows (all after End) are returned.
-    Both quirks are in [trim_range]; they are finding F11 (class no-candidate-le-end).
+      loop 2  scans backward for the last row with t <= End and returns dest cut after it; when NO row
+              is <= End it returns nil.
+    (Before the fix a single remaining row was returned unchecked and, when no row was <= End, the
+    result was left uncut.)
 
     Domain: rowlen >= 0 (a nat), so rowLength >= 8 and every slice expression of the Go code is in
     bounds (cursor + rowLength <= len by construction of nrecords): no panic is reachable, the model
@@ -47,10 +47,10 @@ Fixpoint drop_before (start : gtime) (rl : nat) (src : list byte) (cursor n : na
       else drop_before start rl src (cursor + rl) n'
   end.
 
-(** loop 2: for i := nrecords; i > 0; i-- *)
+(** loop 2: for i := nrecords; i > 0; i-- ; falling out of the loop returns nil *)
 Fixpoint cut_after (endt : gtime) (rl : nat) (dest : list byte) (i : nat) : list byte :=
   match i with
-  | O => dest
+  | O => []
   | S i' =>
       if t_le (rec_time dest (i' * rl) rl) endt then firstn (i' * rl + rl) dest
       else cut_after endt rl dest i'
@@ -62,9 +62,7 @@ Definition trim_range (start endt : gtime) (rowlen : nat) (src : list byte) : li
   if (n =? 0)%nat then []
   else match drop_before start rl src 0 n with
        | None => []
-       | Some dest =>
-           let n' := (length dest / rl)%nat in
-           if (n' <=? 1)%nat then dest else cut_after endt rl dest n'
+       | Some dest => cut_after endt rl dest (length dest / rl)%nat
        end.
 
 (** trimResultsToLimit(l, rowLen, src): [first] = (l.Direction == FIRST); limit = int(l.Number).
@@ -99,7 +97,7 @@ Fixpoint drop_rows (start : gtime) (rows : list vrow) : list vrow :=
 
 Fixpoint cut_rows (endt : gtime) (rows : list vrow) (i : nat) : list vrow :=
   match i with
-  | O => rows
+  | O => []
   | S i' =>
       match nth_error rows i' with
       | Some r => if t_le (row_time r) endt then firstn (S i') rows else cut_rows endt rows i'
@@ -108,8 +106,7 @@ Fixpoint cut_rows (endt : gtime) (rows : list vrow) (i : nat) : list vrow :=
   end.
 
 Definition trim_rows (start endt : gtime) (rows : list vrow) : list vrow :=
-  let d := drop_rows start rows in
-  if (length d <=? 1)%nat then d else cut_rows endt d (length d).
+  let d := drop_rows start rows in cut_rows endt d (length d).
 
 (** well-formed rows of a bucket with payload length [plen]: values in their Go types *)
 Definition wf_row (plen : nat) (r : vrow) : Prop :=
@@ -122,14 +119,6 @@ Fixpoint sorted_rows (rows : list vrow) : bool :=
   match rows with
   | [] => true
   | a :: rest => match rest with [] => true | b :: _ => t_le (row_time a) (row_time b) && sorted_rows rest end
-  end.
-
-(** the F11 guard (class no-candidate-le-end): after dropping the rows before Start, either nothing
-    is left or the first remaining row (the earliest candidate) is <= End *)
-Definition guard_trim (start endt : gtime) (rows : list vrow) : bool :=
-  match drop_rows start rows with
-  | [] => true
-  | r :: _ => t_le (row_time r) endt
   end.
 
 Definition in_range_row (start endt : gtime) (r : vrow) : bool :=
